@@ -304,9 +304,10 @@ func (s *stubHub) reset() {
 }
 
 type stubService struct {
-	Name  string `toml:"name"`
-	Reply string `toml:"reply"`
-	ch    pushers.Channel
+	Name    string `toml:"name"`
+	Reply   string `toml:"reply"`
+	DelayMs int    `toml:"delay_ms"` // a service that starts reading a little late
+	ch      pushers.Channel
 }
 
 func (s *stubService) SetChannel(c pushers.Channel) { s.ch = c }
@@ -314,6 +315,9 @@ func (s *stubService) SetChannel(c pushers.Channel) { s.ch = c }
 func (s *stubService) Handle(ctx context.Context, conn net.Conn) error {
 	rec := &stubRecord{Name: s.Name, Remote: conn.RemoteAddr().String(), Local: conn.LocalAddr().String()}
 	stubs.add(rec)
+	if s.DelayMs > 0 {
+		time.Sleep(time.Duration(s.DelayMs) * time.Millisecond)
+	}
 	if s.Reply != "" {
 		conn.Write([]byte(s.Reply))
 	}
